@@ -10,9 +10,12 @@ reward are equal to the model's, all evaluated inside Coq (Harness/HC07_fjsp.v).
 Spec-on-impl: Spec/Schedule.v's valid_scheduleb is evaluated in Coq on EVERY implementation schedule with
 makespan = -reward; an independent python validator names the mechanism when it fails."""
 import os
+import random
 import shutil
 import time
+from fractions import Fraction
 
+from vt import sched_guard as guard
 from vt.common import BUILD, coq_eval_shards
 
 HEADER0 = ("From Coq Require Import List ZArith Bool.\n"
@@ -47,8 +50,25 @@ def _case_coq(case, iname):
     else:
         fin = "(Some (mkfin %s %s [%s] (%d)%%Z))" % (
             _zl(f["start"]), _zl(f["finish"]), "; ".join(_bl(r) for r in f["assign"]), f["reward"])
-    return "mkcase %s %s %s %s [%s] %s" % (
-        "true" if case["jssp"] else "false", "true" if case["mno"] else "false", iname, _bl(case["mask0"]), steps, fin)
+    keys = "[" + "; ".join(_keys_coq(q) for q in (case.get("keys") or [])) + "]"
+    return "mkcase %s %s %s %s [%s] %s %s" % (
+        "true" if case["jssp"] else "false", "true" if case["mno"] else "false", iname, _bl(case["mask0"]), steps, fin, keys)
+
+
+# the keys of the step output the row model has a counterpart for (Harness/HC07_fjsp.v fjsp_keys, tags 21..28)
+KEYS_COMPARED = ["time", "busy_until", "next_op", "job_in_process", "job_done", "op_scheduled", "start_times", "finish_times"]
+
+
+def _keys_of(td, b):
+    return {"time": _ints(td["time"][b])[0], "busy": _ints(td["busy_until"][b]), "next": _ints(td["next_op"][b]),
+            "inproc": [bool(x) for x in td["job_in_process"][b].tolist()], "jdone": [bool(x) for x in td["job_done"][b].tolist()],
+            "sched": [bool(x) for x in td["op_scheduled"][b].tolist()], "start": _ints(td["start_times"][b]),
+            "finish": _ints(td["finish_times"][b])}
+
+
+def _keys_coq(q):
+    return "(mkkeys (%d)%%Z %s %s %s %s %s %s %s)" % (q["time"], _zl(q["busy"]), _nl(q["next"]), _bl(q["inproc"]), _bl(q["jdone"]),
+                                                      _bl(q["sched"]), _zl(q["start"]), _zl(q["finish"]))
 
 
 # ----------------------------------------------------------------------------- exact integers out of tensors
@@ -144,8 +164,20 @@ class Runner:
         self.cases = []          # dicts: jssp, mno, inst (index), mask0, steps, final, meta
         self.failures = []       # (signature, replay)
         self.skipped_nonintegral = 0
+        # bookkeeping keys travel with every exhaustive case and with a fixed share of the walk episodes (term size); an own
+        # generator, so that the instance / walk streams do not depend on it
+        self.key_rng = random.Random(ctx.seed * 7919 + 17)
+        self.key_share = 0.3
+        self.cases_with_keys = 0
+        self.sw_rows = []        # stepwise_reward=True episodes: (kind, mno, inst, row record, replay)
 
-    def env(self, kind, mno, gp):
+    def timeout(self, kind, e, replay):
+        """an env call did not return (vt/sched_guard.py): C02's 'episodes terminate', reported with instance + actions"""
+        self.failures.append((guard.signature(kind, e.what), dict(replay, error=str(e), what_hangs="env.%s" % e.what)))
+
+    def env(self, kind, mno, gp, stepwise=False):
+        if stepwise:
+            return self.cls[kind](generator_params=dict(gp), mask_no_ops=mno, check_mask=True, stepwise_reward=True)
         return self.cls[kind](generator_params=dict(gp), mask_no_ops=mno, check_mask=True)
 
     def inst_index(self, inst):
@@ -166,12 +198,19 @@ class Runner:
             return
         replay = {"unit": "fjsp", "env": self.cls[kind].__name__, "mask_no_ops": mno, "instances": insts,
                   "actions": [], "policy": policy, "source": source}
+        if guard.timed_out(kind):
+            return
         try:
-            td = env.reset(td0.clone())
+            td = guard.call(kind, "reset", env.reset, td0.clone())
+        except guard.EnvTimeout as e:
+            self.timeout(kind, e, replay)
+            return
         except Exception as e:  # noqa: BLE001
             self.failures.append(("%s: reset-raises" % kind, dict(replay, error=repr(e)[:400])))
             return
         rows = [{"mask0": [bool(x) for x in td["action_mask"][b].tolist()], "steps": [], "choice": False} for b in range(B)]
+        with_keys = self.key_rng.random() < self.key_share
+        keys = [[_keys_of(td, b)] for b in range(B)] if with_keys else None
         pads = 0
         nstep = 0
         while True:
@@ -197,13 +236,21 @@ class Runner:
             t_before = td["time"].clone()
             d_before = td["done"].squeeze(1).clone()
             try:
-                td = env.step(td)["next"]
+                td = guard.call(kind, "step", env.step, td)["next"]
+            except guard.EnvTimeout as e:
+                self.timeout(kind, e, replay)
+                return
             except Exception as e:  # noqa: BLE001
                 self.failures.append(("%s: step-raises-on-admitted-action" % kind, dict(replay, error=repr(e)[:400])))
                 return
             nstep += 1
             for b in range(B):
                 rows[b]["steps"].append((acts[b], [bool(x) for x in td["action_mask"][b].tolist()], bool(td["done"][b])))
+                if keys is not None:
+                    try:
+                        keys[b].append(_keys_of(td, b))
+                    except NotIntegral:
+                        keys = None
                 if bool(d_before[b]):
                     ctx.count("fjsp_padding_steps_on_finished_rows")
                 elif acts[b] == 0:
@@ -211,7 +258,7 @@ class Runner:
                 elif float(td["time"][b]) != float(t_before[b]):
                     ctx.count("fjsp_steps_with_automatic_time_transit")
         try:
-            rew = env.get_reward(td, None)
+            rew = guard.call(kind, "get_reward", env.get_reward, td, None)
             finals = []
             for b in range(B):
                 N = len(insts[b]["pad"])
@@ -222,6 +269,9 @@ class Runner:
                                "reward": _ints(rew[b])[0]})
         except NotIntegral:
             self.skipped_nonintegral += B
+            return
+        except guard.EnvTimeout as e:
+            self.timeout(kind, e, replay)
             return
         except Exception as e:  # noqa: BLE001
             self.failures.append(("%s: get_reward-raises" % kind, dict(replay, error=repr(e)[:400])))
@@ -235,10 +285,14 @@ class Runner:
                 self.failures.append(("%s: schedule-invalid/%s" % (kind, why),
                                       dict(replay, row=b, observed=finals[b])))
             case = {"jssp": kind == "jssp", "mno": mno, "inst": self.inst_index(insts[b]), "mask0": rows[b]["mask0"],
-                    "steps": rows[b]["steps"], "final": finals[b], "py_valid": why,
+                    "steps": rows[b]["steps"], "final": finals[b], "py_valid": why, "keys": keys[b] if keys is not None else None,
                     "meta": {"env": kind, "mask_no_ops": mno, "policy": policy, "source": source, "batch": B, "row": b,
                              "replay": replay}}
             self.cases.append(case)
+            if keys is not None:
+                self.cases_with_keys += 1
+                ctx.count("fjsp_cases_with_bookkeeping_keys_compared")
+                ctx.count("fjsp_states_with_bookkeeping_keys_compared", len(keys[b]))
             acts_b = [s[0] for s in rows[b]["steps"]]
             ctx.seen({"i": insts[b], "a": acts_b, "k": kind, "m": mno}, nontrivial=len(acts_b) >= 2 and rows[b]["choice"])
             ctx.count("fjsp_cases_%s_%s" % (kind, "mask_no_ops" if mno else "waits_allowed"))
@@ -257,16 +311,23 @@ class Runner:
         idx = self.inst_index(inst)
         replay0 = {"unit": "fjsp", "env": self.cls[kind].__name__, "mask_no_ops": mno, "instances": [inst],
                    "source": "exhaustive"}
-        td = env.reset(td0.clone())
+        if guard.timed_out(kind):
+            return
+        try:
+            td = guard.call(kind, "reset", env.reset, td0.clone())
+        except guard.EnvTimeout as e:
+            self.timeout(kind, e, dict(replay0, actions=[]))
+            return
         mask0 = [bool(x) for x in td["action_mask"][0].tolist()]
         count = [0]
+        keys0 = _keys_of(td, 0)
 
-        def rec(td, steps, choice):
+        def rec(td, steps, choice, keys):
             if count[0] >= cap:
                 return
             if bool(td["done"].all()):
                 count[0] += 1
-                rew = env.get_reward(td, None)
+                rew = guard.call(kind, "get_reward", env.get_reward, td, None)
                 N, M = len(inst["pad"]), len(inst["proc"])
                 a = _ints(td["ma_assignment"][0])
                 f = {"start": _ints(td["start_times"][0]), "finish": _ints(td["finish_times"][0]),
@@ -276,9 +337,12 @@ class Runner:
                 if why is not None:
                     self.failures.append(("%s: schedule-invalid/%s" % (kind, why), dict(replay, row=0, observed=f)))
                 self.cases.append({"jssp": kind == "jssp", "mno": mno, "inst": idx, "mask0": mask0, "steps": list(steps),
-                                   "final": f, "py_valid": why,
+                                   "final": f, "py_valid": why, "keys": list(keys),
                                    "meta": {"env": kind, "mask_no_ops": mno, "policy": "exhaustive", "source": "exhaustive",
                                             "batch": 1, "row": 0, "replay": replay}})
+                self.cases_with_keys += 1
+                ctx.count("fjsp_cases_with_bookkeeping_keys_compared")
+                ctx.count("fjsp_states_with_bookkeeping_keys_compared", len(keys))
                 ctx.seen({"i": inst, "a": [s[0] for s in steps], "k": kind, "m": mno}, nontrivial=len(steps) >= 2 and choice)
                 ctx.count("fjsp_cases_%s_%s" % (kind, "mask_no_ops" if mno else "waits_allowed"))
                 ctx.count("fjsp_cases_solo")
@@ -293,7 +357,10 @@ class Runner:
                 t2 = td.clone()
                 t2.set("action", torch.tensor([a], dtype=torch.int64))
                 try:
-                    t2 = env.step(t2)["next"]
+                    t2 = guard.call(kind, "step", env.step, t2)["next"]
+                except guard.EnvTimeout:
+                    self.hung = [[s[0]] for s in steps] + [[a]]
+                    raise
                 except Exception as e:  # noqa: BLE001
                     self.failures.append(("%s: step-raises-on-admitted-action" % kind,
                                           dict(replay0, actions=[[s[0]] for s in steps] + [[a]], error=repr(e)[:400])))
@@ -301,12 +368,15 @@ class Runner:
                 if a == 0:
                     ctx.count("fjsp_wait_actions")
                 rec(t2, steps + [(a, [bool(x) for x in t2["action_mask"][0].tolist()], bool(t2["done"][0]))],
-                    choice or len(adm) >= 2)
+                    choice or len(adm) >= 2, keys + [_keys_of(t2, 0)])
 
         try:
-            rec(td, [], False)
+            self.hung = []
+            rec(td, [], False, [keys0])
         except NotIntegral:
             self.skipped_nonintegral += 1
+        except guard.EnvTimeout as e:      # the expansion of this instance is abandoned
+            self.timeout(kind, e, dict(replay0, actions=self.hung))
         if count[0] >= cap:
             ctx.count("fjsp_exhaustive_cap_hit")
         ctx.count("fjsp_exhaustive_instances")
@@ -355,6 +425,265 @@ class Runner:
 
 
 POLICIES = ["random", "random", "wait", "nowait", "first", "last"]
+
+
+# ----------------------------------------------------------------------------- stepwise_reward=True (dense reward)
+SW_SIG = "%s/stepwise_reward=True: reward-differs-from-objective"
+SW_TAGS = {4: "initial lower bound minus the sum of the step rewards is not the makespan of the induced schedule",
+           5: "sparse reward differs from the model", 17: "a step reward is not minus the change of the maximal lower bound",
+           18: "the final lower bound is not the makespan", 19: "malformed record", 2: "action outside the model mask",
+           7: "model step = None", 12: "episode not finished", 20: "instance outside wfb / solvableb / jssp_wfb",
+           21: "the model's own schedule is rejected by valid_scheduleb"}
+
+
+def _frac(x):
+    try:
+        return Fraction(float(x))
+    except (OverflowError, ValueError):
+        return None
+
+
+def stepwise_episode(torch, kind, env, td0, policies, rng, extra_pad=1, max_steps=400):
+    """One batch of FJSPEnv / JSSPEnv(stepwise_reward=True) driven through its own mask.  Per row: the actions, the maximal
+    lower bound td['lbs'].max() after reset and after every step, td['reward'] after every step (exact rationals of the
+    float32 values) and the sparse reward env.get_reward(td, actions).  May raise NotIntegral (instance data)."""
+    B = td0.batch_size[0]
+    insts = [_inst_of_td(td0, b) for b in range(B)]
+    out = {"insts": insts, "actions": [], "crash": None, "rows": []}
+    try:
+        td = guard.call(kind, "reset", env.reset, td0.clone())
+    except guard.EnvTimeout as e:
+        out["crash"] = {"where": "timeout", "call": e.what, "error": str(e)}
+        return out
+    except Exception as e:  # noqa: BLE001
+        out["crash"] = {"where": "reset", "error": repr(e)[:300]}
+        return out
+    L = [[_frac(x)] for x in td["lbs"].max(1).values.tolist()]
+    r = [[] for _ in range(B)]
+    choice = [False] * B
+    first_done = [None] * B
+    pads = k = 0
+    while True:
+        if bool(td["done"].all()):
+            if pads >= extra_pad:
+                break
+            pads += 1
+        if k >= max_steps:
+            out["crash"] = {"where": "loop", "error": "episode longer than %d steps" % max_steps}
+            return out
+        acts = []
+        for b in range(B):
+            mrow = [bool(x) for x in td["action_mask"][b].tolist()]
+            a = _choose(torch, mrow, bool(td["done"][b]), policies[b % len(policies)], rng)
+            if a is None:
+                out["crash"] = {"where": "mask", "error": "empty mask row", "row": b, "step": k}
+                return out
+            choice[b] = choice[b] or sum(mrow) >= 2
+            acts.append(a)
+        out["actions"].append(acts)
+        td.set("action", torch.tensor(acts, dtype=torch.int64))
+        try:
+            td = guard.call(kind, "step", env.step, td)["next"]
+        except guard.EnvTimeout as e:
+            out["crash"] = {"where": "timeout", "call": e.what, "error": str(e)}
+            return out
+        except Exception as e:  # noqa: BLE001
+            out["crash"] = {"where": "step", "error": repr(e)[:300], "step": k}
+            return out
+        k += 1
+        lm = td["lbs"].max(1).values.tolist()
+        rw = td["reward"].reshape(-1).tolist()
+        for b in range(B):
+            L[b].append(_frac(lm[b]))
+            r[b].append(_frac(rw[b]))
+            if bool(td["done"][b]) and first_done[b] is None:
+                first_done[b] = k
+    try:
+        at = torch.tensor(out["actions"], dtype=torch.int64).T.contiguous()
+        sp = guard.call(kind, "get_reward", env.get_reward, td, at).reshape(-1).tolist()
+    except guard.EnvTimeout as e:
+        out["crash"] = {"where": "timeout", "call": e.what, "error": str(e)}
+        return out
+    except Exception as e:  # noqa: BLE001
+        out["crash"] = {"where": "get_reward", "error": repr(e)[:300]}
+        return out
+    for b in range(B):
+        f = _frac(sp[b])
+        out["rows"].append({"acts": [a[b] for a in out["actions"]], "L": L[b], "r": r[b], "choice": choice[b], "first_done": first_done[b],
+                            "sparse": int(f) if f is not None and f.denominator == 1 else None, "sparse_raw": sp[b]})
+    return out
+
+
+def stepwise_scale_tol(row):
+    """(scale, tol): scale = the power of two that makes every recorded float an integer; tol = float32 rounding allowance per
+    step in scaled units (0 where float32 subtraction is exact: multiples of 1/64 below 2^17).  None = not representable."""
+    vals = row["L"] + row["r"]
+    if any(v is None for v in vals):
+        return None
+    scale = max(v.denominator for v in vals)
+    if scale > 2 ** 40:
+        return None
+    maxabs = max(abs(v) for v in vals)
+    if scale <= 64 and maxabs < 2 ** 17:
+        return scale, 0
+    return scale, int(scale * maxabs / 2 ** 22) + 1
+
+
+def stepwise_py_check(row):
+    """the telescoping identity on the implementation's own numbers: None = holds, else a description"""
+    st_ = stepwise_scale_tol(row)
+    if st_ is None:
+        return "a lower bound / step reward is not a finite float32 number"
+    if row["sparse"] is None:
+        return "the sparse reward %r is not an integer" % (row["sparse_raw"],)
+    scale, tol = st_
+    lhs = row["L"][0] - sum(row["r"], Fraction(0))
+    if abs(lhs - (-row["sparse"])) * scale > tol * len(row["r"]):
+        return ("initial max lower bound %s minus the sum of the %d step rewards (%s) = %s, but the makespan "
+                "(-env.get_reward(td, actions)) is %s" % (float(row["L"][0]), len(row["r"]), float(sum(row["r"], Fraction(0))),
+                                                          float(lhs), -row["sparse"]))
+    return None
+
+
+def stepwise_term(kind, mno, iname, row):
+    scale, tol = stepwise_scale_tol(row)
+    z = lambda v: int(v * scale)
+    return "(%s, %s, %s, %s, mksw (%d)%%Z %s %s (%d)%%Z (%d)%%Z)" % (
+        "true" if kind == "jssp" else "false", "true" if mno else "false", iname, _nl(row["acts"]), scale,
+        _zl([z(v) for v in row["L"]]), _zl([z(v) for v in row["r"]]), tol, row["sparse"])
+
+
+def stepwise_replay_obj(kind, mno, out, b, what):
+    row = out["rows"][b] if out["rows"] else None
+    obj = {"unit": "fjsp", "env": {"fjsp": "FJSPEnv", "jssp": "JSSPEnv"}[kind], "kind": "fjsp_stepwise", "mask_no_ops": mno,
+           "stepwise_reward": True, "instances": out["insts"], "actions": out["actions"], "row": b, "what": what, "crash": out["crash"]}
+    if row is not None:
+        obj["observed"] = {"max_lower_bound_after_reset_and_each_step": [float(v) if v is not None else None for v in row["L"]],
+                           "step_rewards": [float(v) if v is not None else None for v in row["r"]],
+                           "sparse_reward": row["sparse_raw"]}
+        obj["expected"] = "max lower bound after reset - sum(step rewards) == makespan == -env.get_reward(td, actions)"
+    return obj
+
+
+def stepwise_replay(obj):
+    """re-runs a recorded stepwise_reward=True batch on the current tree and prints the identity for the recorded row"""
+    import torch
+    from tensordict import TensorDict
+    from rl4co.envs.scheduling.fjsp.env import FJSPEnv
+    from rl4co.envs.scheduling.jssp.env import JSSPEnv
+    kind = "jssp" if obj["env"] == "JSSPEnv" else "fjsp"
+    insts = obj["instances"]
+    N = max(len(i["pad"]) for i in insts)
+    td0 = TensorDict({"start_op_per_job": torch.tensor([i["start"] for i in insts]),
+                      "end_op_per_job": torch.tensor([i["end"] for i in insts]),
+                      "proc_times": torch.tensor([[r + [0] * (N - len(r)) for r in i["proc"]] for i in insts], dtype=torch.float32),
+                      "pad_mask": torch.tensor([list(i["pad"]) + [True] * (N - len(i["pad"])) for i in insts])}, batch_size=[len(insts)])
+    env = {"fjsp": FJSPEnv, "jssp": JSSPEnv}[kind](generator_params={"num_jobs": len(insts[0]["start"]), "num_machines": len(insts[0]["proc"])},
+                                                  mask_no_ops=obj["mask_no_ops"], stepwise_reward=True)
+    b = obj.get("row", 0)
+    print("signature:", obj.get("signature"))
+    print("instance :", insts[b])
+    try:
+        td = guard.call(kind, "reset", env.reset, td0)
+        L0 = float(td["lbs"].max(1).values[b])
+        tot = Fraction(0)
+        print("max lower bound after reset: %s" % L0)
+        for k, acts in enumerate(obj.get("actions", []), 1):
+            td.set("action", torch.tensor(acts, dtype=torch.int64))
+            td = guard.call(kind, "step", env.step, td)["next"]
+            rw = float(td["reward"].reshape(-1)[b])
+            tot += Fraction(rw)
+            print("step %d action %d -> reward %s, max lower bound %s, done %s" % (k, acts[b], rw, float(td["lbs"].max(1).values[b]), bool(td["done"][b])))
+    except guard.EnvTimeout as e:
+        print("HANG reproduced:", e)
+        return 1
+    mk = None
+    if bool(td["done"].all()):
+        mk = -float(env.get_reward(td, torch.tensor(obj["actions"], dtype=torch.int64).T.contiguous())[b])
+    lhs = float(Fraction(L0) - tot)
+    print("initial lower bound - sum of step rewards = %s ; makespan = %s" % (lhs, mk))
+    print("recorded:", obj.get("observed"))
+    ok = mk is not None and abs(lhs - mk) <= 1e-3 * max(1.0, abs(mk))
+    print("identity holds now:", ok)
+    return 0 if ok else 1
+
+
+def _generate_stepwise(ctx, R, scale, big, rng):
+    """FJSPEnv / JSSPEnv constructed with stepwise_reward=True (own generator `rng`: the other streams do not depend on it)"""
+    torch = R.torch
+    combos = [(k, m) for k in ("fjsp", "jssp") for m in (True, False)]
+    for kind, mno in combos:
+        for rep in range(scale + 1):
+            long_h = rep == scale
+            if long_h:
+                gp = {"num_jobs": 3, "num_machines": 2, "min_ops_per_job": 2, "max_ops_per_job": 3,
+                      "min_processing_time": rng.choice([2500, 3000]), "max_processing_time": rng.choice([4000, 6000])}
+            else:
+                gp = {"num_jobs": rng.randint(2, 6 if big else 4), "num_machines": rng.choice([2, 2, 3, 4]), "min_ops_per_job": 1,
+                      "max_ops_per_job": rng.randint(2, 3), "min_processing_time": 1, "max_processing_time": rng.choice([2, 3, 5, 9])}
+            if kind == "jssp":
+                gp["one2one_ma_map"] = False
+            torch.manual_seed(rng.randrange(2 ** 31))
+            env = R.env(kind, mno, gp, stepwise=True)
+            B = rng.randint(2, 4)
+            td0 = env.generator(batch_size=[B])
+            if B > 1 and rng.random() < 0.6:
+                td0["proc_times"][B - 1] = td0["proc_times"][B - 1] * 3
+            if guard.timed_out(kind):
+                continue
+            try:
+                out = stepwise_episode(torch, kind, env, td0, [rng.choice(POLICIES) for _ in range(B)], rng, extra_pad=rng.randint(0, 2))
+            except NotIntegral:
+                R.skipped_nonintegral += B
+                continue
+            ctx.count("fjsp_stepwise_batches_%s_%s" % (kind, "mask_no_ops" if mno else "waits_allowed"))
+            if out["crash"]:
+                c = out["crash"]
+                sig = (guard.signature(kind, c["call"]) if c["where"] == "timeout" else
+                       "%s: %s" % (kind, {"mask": "empty-mask-row", "step": "step-raises-on-admitted-action", "reset": "reset-raises",
+                                          "loop": "episode-does-not-terminate", "get_reward": "get_reward-raises"}[c["where"]]))
+                R.failures.append((sig, stepwise_replay_obj(kind, mno, out, c.get("row", 0), "stepwise_reward=True: " + c["error"])))
+                continue
+            for b, row in enumerate(out["rows"]):
+                why = stepwise_py_check(row)
+                if why is not None:
+                    R.failures.append((SW_SIG % kind, stepwise_replay_obj(kind, mno, out, b, why)))
+                if stepwise_scale_tol(row) is None or row["sparse"] is None:
+                    continue
+                R.sw_rows.append((kind, mno, R.inst_index(out["insts"][b]), row, stepwise_replay_obj(kind, mno, out, b, "")))
+                ctx.seen({"sw": True, "i": out["insts"][b], "a": row["acts"], "k": kind, "m": mno}, nontrivial=len(row["acts"]) >= 2 and row["choice"])
+                ctx.count("fjsp_stepwise_rows")
+                ctx.count("fjsp_stepwise_rows_%s" % ("exact_dyadic" if stepwise_scale_tol(row)[1] == 0 else "with_float32_rounding_allowance"))
+                ctx.count("fjsp_stepwise_steps", len(row["r"]))
+                ctx.count("fjsp_stepwise_steps_with_nonzero_reward", sum(1 for v in row["r"] if v != 0))
+                ctx.count("fjsp_stepwise_padding_steps_after_done", len(row["r"]) - (row["first_done"] or len(row["r"])))
+
+
+def _evaluate_stepwise(ctx, R, unit):
+    if not R.sw_rows:
+        return
+    header = HEADER0 + "".join("Definition I%d : inst := %s.\n" % (k, _inst_coq(inst)) for k, inst in enumerate(R.insts))
+    terms = [stepwise_term(kind, mno, "I%d" % idx, row) for kind, mno, idx, row, _ in R.sw_rows]
+    try:
+        codes = coq_eval_shards("cases_C07_fjsp_stepwise", header, "sw_case", "check_stepwise", terms, shard=150)
+    except RuntimeError as e:
+        ctx.broken.append("correspondence C07/fjsp/stepwise could not be evaluated in Coq: %s" % str(e)[-800:])
+        return
+    nz = [(k, c) for k, c in enumerate(codes) if c != 0]
+    unit["stepwise_rows"] = len(codes)
+    unit["stepwise_disagreements"] = len(nz)
+    for k, c in nz:
+        kind, mno, idx, row, rep = R.sw_rows[k]
+        if c % 1000 == 4:      # the identity fails against the makespan recomputed from (instance, actions)
+            R.failures.append((SW_SIG % kind, dict(rep, what="evaluated in Coq: " + SW_TAGS[4], code=c)))
+    other = [(k, c) for k, c in nz if c % 1000 != 4]
+    if other:
+        k, c = other[0]
+        kind, mno, idx, row, rep = R.sw_rows[k]
+        path = ctx.write_replay(dict(rep, code=c, property="C07", what="model/implementation disagreement: " + SW_TAGS.get(c % 1000, "?")),
+                                tag="corr-fjsp-stepwise")
+        ctx.broken.append("correspondence C07/fjsp/stepwise_reward=True: %d of %d rows differ; first: code %d (step %d: %s), case file %s" % (
+            len(other), len(codes), c, c // 1000, SW_TAGS.get(c % 1000, "?"), path))
 
 
 def _generate_cases(ctx, R, scale, big):
@@ -479,6 +808,7 @@ def run_unit(ctx, proofs_ok):
         "outside the theorems and are counted as such",
     ]
     _generate_cases(ctx, R, 24 if big else 4, big)
+    _generate_stepwise(ctx, R, 12 if big else 2, big, random.Random(ctx.seed * 31 + 5))
     t1 = time.time()
     res = _evaluate(ctx, R, R.cases, "cases_C07_fjsp")
     unit = {"models": "Env/FJSP.v (FJSPEnv automaton; JSSPEnv mask + action translation); spec Spec/Schedule.v; "
@@ -487,7 +817,17 @@ def run_unit(ctx, proofs_ok):
                            "start_times, finish_times, ma_assignment, reward (equal); spec-on-impl: valid_scheduleb with "
                            "makespan = -reward on every implementation schedule, cross-checked by a python validator",
             "cases": len(R.cases), "instances": len(R.insts), "skipped_nonintegral": R.skipped_nonintegral,
+            "bookkeeping_keys_compared_per_state": {"FJSPEnv / JSSPEnv": KEYS_COMPARED + ["done", "action_mask (impl inside model)"],
+                                                    "at_the_end": ["start_times", "finish_times", "ma_assignment", "reward"],
+                                                    "not_compared (no model counterpart)": ["lbs", "is_ready", "num_eligible", "ops_sequence_order",
+                                                                                            "ops_ma_adj / proc_times after scheduling", "adjacency", "next_ma"]},
+            "cases_with_bookkeeping_keys": R.cases_with_keys,
             "wall_s_running_envs": round(t1 - t0, 1), "wall_s_coq_evaluation": round(time.time() - t1, 1)}
+    _evaluate_stepwise(ctx, R, unit)
+    unit["stepwise_reward_observables"] = ("FJSPEnv/JSSPEnv(stepwise_reward=True): td['lbs'].max() after reset and every step, td['reward'] "
+                                           "after every step, env.get_reward(td, actions); identity L0 - sum(r) = makespan (python on the "
+                                           "implementation alone; Coq against the makespan of the schedule the row model induces)")
+    unit["env_call_guard"] = guard.evidence()
     bad = []
     if res is not None:
         nz = [(k, r) for k, r in enumerate(res) if r[0] != 0]
@@ -511,7 +851,7 @@ def run_unit(ctx, proofs_ok):
         cross = [k for k, r in enumerate(res) if r[1] in (0, 6) and ((r[1] == 6) != (R.cases[k]["py_valid"] is not None))]
         if cross:
             ctx.broken.append("C07/fjsp: python validator and valid_scheduleb disagree on case %d" % cross[0])
-    if (not proofs_ok) or bad or res is None:
+    if ((not proofs_ok) or bad or res is None) and not guard.timed_out():
         extra = _search(ctx, R, bad, big)
         if res is not None and extra:
             res2 = _evaluate(ctx, R, extra, "cases_C07_fjsp_search")
@@ -544,6 +884,8 @@ def run_unit(ctx, proofs_ok):
 
 def replay(obj):
     """Re-runs a recorded batch on the current tree and prints what the env reports for the recorded row."""
+    if obj.get("stepwise_reward"):
+        return stepwise_replay(obj)
     import torch
     from tensordict import TensorDict
     from rl4co.envs.scheduling.fjsp.env import FJSPEnv
@@ -556,10 +898,17 @@ def replay(obj):
                       "pad_mask": torch.tensor([i["pad"] for i in insts])}, batch_size=[len(insts)])
     env = cls(generator_params={"num_jobs": len(insts[0]["start"]), "num_machines": len(insts[0]["proc"])},
               mask_no_ops=obj["mask_no_ops"], check_mask=True)
-    td = env.reset(td0)
-    for acts in obj.get("actions", []):
-        td.set("action", torch.tensor(acts, dtype=torch.int64))
-        td = env.step(td)["next"]
+    kind = "jssp" if obj["env"] == "JSSPEnv" else "fjsp"
+    k = 0
+    try:
+        td = guard.call(kind, "reset", env.reset, td0)
+        for k, acts in enumerate(obj.get("actions", []), 1):
+            td.set("action", torch.tensor(acts, dtype=torch.int64))
+            td = guard.call(kind, "step", env.step, td)["next"]
+    except guard.EnvTimeout as e:
+        print("signature:", obj.get("signature"))
+        print("HANG reproduced: %s (at step %d of the recorded actions)" % (e, k))
+        return 1
     b = obj.get("row", 0)
     N, M = len(insts[b]["pad"]), len(insts[b]["proc"])
     f = None
